@@ -931,6 +931,74 @@ func TestC19Rapid(t *testing.T) {
 	})
 }
 
+// distinctObject puts the position i of a chain in its case into the chain's object, so that objects of different chains differ.
+func distinctObject(ch Chain, i int) Chain {
+	if ch.PB != nil {
+		p := *ch.PB
+		p.N = append([]int64{p.n(0)&^15 | int64(i)}, p.N[min(1, len(p.N)):]...)
+		p.S = append([]string{fmt.Sprintf("%s#%d", p.s(0), i)}, p.S[min(1, len(p.S)):]...)
+		ch.PB = &p
+	} else if ch.Embed >= 0 && ch.Obj != nil {
+		o := *ch.Obj
+		o.N = o.N&^15 | int64(i)
+		ch.Obj = &o
+	}
+	return ch
+}
+
+// genHammer draws a hammer case (conc.go): 2..12 chains around different classes (the ten coded classes in a drawn order,
+// repeated from the eleventh chain on). A third of the cases are lean - plain %w chains of depth 1..3 with short texts and
+// no object, the tightest loop -, the others take their chains from genChain (all level forms, objects of all kinds,
+// caller-owned targets in the sequential phase), runs cut to <= 32 links. Three chains in four that would be a bare class
+// get one plain level: a bare class is found by a map lookup, the class of a chain only by walking it.
+func genHammer(t *rapid.T) Case {
+	c := Case{Kind: "hammer", Chain: Chain{Embed: -1}}
+	classes := rapid.Permutation(CodedClasses).Draw(t, "classes")
+	n := rapid.IntRange(2, 12).Draw(t, "chains")
+	lean := rapid.IntRange(0, 2).Draw(t, "lean") == 0
+	short := rapid.SampledFrom([]string{"", "", ": ", "op: ", "/", " (x)", "\x1b", "n", "é"})
+	for i := 0; i < n; i++ {
+		var ch Chain
+		if lean {
+			ch = Chain{Embed: -1, Wraps: make([]Wrap, rapid.IntRange(1, 3).Draw(t, "leanDepth"))}
+			for k := range ch.Wraps {
+				ch.Wraps[k] = Wrap{Pre: short.Draw(t, "leanPre"), Post: short.Draw(t, "leanPost")}
+			}
+		} else {
+			ch = genChain(t, 0)
+			for k := range ch.Wraps {
+				ch.Wraps[k].Rep %= 32
+			}
+			if len(ch.Wraps) == 0 && ch.Embed < 0 && rapid.IntRange(0, 3).Draw(t, "bare") > 0 {
+				ch.Wraps = []Wrap{{Pre: short.Draw(t, "pre"), Post: short.Draw(t, "post")}}
+			}
+			ch = distinctObject(ch, i)
+		}
+		ch.Class = classes[i%len(classes)]
+		c.Batch = append(c.Batch, ch)
+	}
+	c.G = rapid.SampledFrom([]int{2, 2, 3, 4, 4, 6, 8, 8, 12, 16}).Draw(t, "goroutines")
+	c.Rounds = rapid.IntRange(vstat.Pick(1000, 4000), vstat.Pick(3000, 12000)).Draw(t, "rounds")
+	// the race-detector unit needs overlapping calls, not many of them (and is ten times slower per call)
+	if mx := vstat.EnvInt("VERIF_HAMMER_MAX_ROUNDS", 0); mx > 0 {
+		c.Rounds = min(c.Rounds, mx)
+	}
+	return c
+}
+
+// TestC19Concurrent: goroutines use the functions of the property on chains of different classes at the same time; every
+// result must be the one the same call gave before the goroutines started.
+func TestC19Concurrent(t *testing.T) {
+	st := vstat.For(prop)
+	rapid.Check(t, func(t *rapid.T) {
+		c := genHammer(t)
+		info, v := Run(c)
+		st.Report(t, "TestC19Concurrent", c, v)
+		record(c, info)
+		st.AddExtra("hammer_visits", info.HammerVisits)
+	})
+}
+
 func TestReplay(t *testing.T) {
 	p := vstat.ReplayPath()
 	if p == "" {
